@@ -60,6 +60,8 @@ def expected_cycles(case):
         c = case["clock0"]
         seq = [c]
         for k, d, _e in t["steps"]:
+            if k == "park":
+                break        # sleep_cycles(u64::MAX - d): the task must never be seen again (nor anything after it)
             c = c + (1 if k == "yield" else d)
             seq.append(c)
         out.append(seq)
@@ -79,7 +81,8 @@ def judge(res: Result, case, outs, partitions):
         if o.get("panic"):
             res.violation({"clause": "driver_panics"}, pc, o["panic"][:200])
             return
-        if o["done"] != ntasks:
+        nparked = sum(1 for t in case["tasks"] if any(st[0] == "park" for st in t["steps"]))
+        if o["done"] != ntasks - nparked:
             res.violation({"clause": "tasks_never_finish", "partition": "const" if len(part) == 1 else "seq"}, pc,
                           {"done": o["done"], "calls": o["calls"], "stalled": o.get("stalled")})
             return
@@ -89,6 +92,9 @@ def judge(res: Result, case, outs, partitions):
         prev_cycle = case["clock0"]
         seen = [0] * ntasks
         for (tid, step, cyc), raw in zip(log, o["log"]):
+            if step + 1 >= len(exp[tid]):
+                res.violation({"clause": "parked_task_resumed"}, pc, {"task": tid, "step": step, "cycle": cyc})
+                return
             want = exp[tid][step + 1]
             if step + 1 != seen[tid]:
                 res.violation({"clause": "task_resumed_out_of_script_order"}, pc, {"task": tid, "step": step})
@@ -158,8 +164,15 @@ def judge(res: Result, case, outs, partitions):
                            "how": "lost" if lost else ("duplicated" if dup else "reordered")}, pc,
                           {"emitted": emitted, "returned": returned})
             return
-        want_events = [e for t in case["tasks"] for e in ([t["start_emit"]] if t["start_emit"] is not None else []) +
-                       [s[2] for s in t["steps"] if s[2] is not None]]
+        want_events = []
+        for t in case["tasks"]:
+            if t["start_emit"] is not None:
+                want_events.append(t["start_emit"])
+            for st in t["steps"]:
+                if st[0] == "park":
+                    break
+                if st[2] is not None:
+                    want_events.append(st[2])
         if sorted(emitted) != sorted(want_events):
             res.violation({"clause": "harness_emit_log_incomplete"}, pc, {"emitted": emitted, "want": want_events})
             return
@@ -212,7 +225,22 @@ def cpu_jobs(r, n, tier):
     kc = c16.key_codes()
     for _ in range(n):
         slice_ = r.choice((1, 2, 3, 10, 10000))
-        if r.random() < 0.5:
+        if r.random() < 0.2:
+            # a program that raises interrupt requests ITSELF (store into ISR) with timers off: the request appears in the
+            # middle of a step(n) call, where only the per-instruction bookkeeping of the loop can pick it up
+            from ..machine import le3, ROM_BASE, VECTOR, ENTRY
+            src = r.choice((0x01, 0x02, 0x08))
+            reset = bytes([0x0F]) + le3(0xB9000) + bytes([0x32, 0xCC, 0xFB, 0x80 | src])
+            loop = bytes([0x32, 0x79, 0xFC, src]) + bytes([0x00] * r.randrange(0, 4)) + bytes([0x6C, 0x00])
+            loop += bytes([0x13, len(loop) + 2])
+            handler = bytes([0x00, 0x32, 0x71, 0xFC, 0xFF ^ src]) + bytes([0x32, 0x79, 0xFC, r.choice((0, 0, src ^ 0x0B & 0x0B))]) + bytes([0x01])
+            h = ROM_BASE + 0x100
+            job = {"mode": "cpu", "code": [[ROM_BASE, (reset + loop).hex()], [h, handler.hex()], [VECTOR, le3(h).hex()],
+                                             [ENTRY, le3(ROM_BASE).hex()]], "rom_ro": True,
+                   "regs": {"PC": ROM_BASE, "S": 0xB9000}, "imem": {"251": 0, "252": 0},
+                   "timer": {"enabled": False, "mti": 0, "sti": 0, "kb_irq": False}, "kind": "template:self_isr"}
+            total = r.choice((7, 20, 50, 120))
+        elif r.random() < 0.5:
             prog = programs.gen_program(r, max_instr=30)
             imem = {str(int(a) - 0x100000): v for a, v in prog["mem"].items() if int(a) >= 0x100000}
             regs = dict(prog["regs"])
@@ -360,6 +388,9 @@ def run_shard(spec) -> Result:
             vs = []
             for _t in range(nt):
                 steps = tuple((r.choice(pal if r.random() < 0.3 else FULL), r.random() < 0.4) for _s in range(r.randrange(0, 7)))
+                if r.random() < 0.15:
+                    # "park forever": a sleep whose deadline does not fit in 64 bits, issued wherever the task happens to be
+                    steps = steps + ((("park", r.choice((0, 1, 2, 7))), False), (("sleep", 1), True))
                 vs.append((r.random() < 0.3, steps))
             cases.append(build_case(i, vs, clock0=r.choice((0, 0, 7, 12345, 1 << 40))))
         def parts_for(c):
